@@ -63,7 +63,7 @@ OPS2_ALL = ['copy_ctor', 'move_ctor', 'copy_ctor_alloc', 'move_ctor_alloc', 'cop
             'assign_copy', 'assign_move', 'append_copy', 'append_move']
 OPS2_SAME_N = {'swap', 'nm_swap', 'copy_assign', 'move_assign', 'copy_ctor', 'move_ctor', 'copy_ctor_alloc', 'move_ctor_alloc'}
 
-def two_job(op, elem, na, nb, capa, capb, afl=0, ideq=1, fmask=0, nfaults=1, std='c++17', witness=None, extra_defs=None, tag='', followup=None, sizea=None, sizeb=None, extra_clang=()):
+def two_job(op, elem, na, nb, capa, capb, afl=0, ideq=1, fmask=0, nfaults=1, std='c++17', witness=None, extra_defs=None, tag='', followup=None, sizea=None, sizeb=None, extra_clang=(), ce=False):
     if op in ('swap', 'nm_swap', 'copy_assign', 'move_assign') and na != nb: return None   # same-type only
     ctor = op.endswith('ctor') or op.endswith('ctor_alloc')
     if ctor: capa = na
@@ -71,13 +71,17 @@ def two_job(op, elem, na, nb, capa, capb, afl=0, ideq=1, fmask=0, nfaults=1, std
     maxcap = (2 * max(capa + capb, 2 * max(capa, capb)) + 2) if followup else max(2 * max(capa, capb), capa + capb, 2) + 2
     defs = {'VF_FOLLOWUP': followup, 'VF_ELEM': elem, 'VF_NA': na, 'VF_NB': nb, 'VF_CAPA': capa, 'VF_CAPB': capb, 'VF_OP': 'OP_' + op, 'VF_AFL': afl,
             'VF_IDEQ': ideq, 'VF_FMASK': fmask, 'VF_NFAULTS': nfaults, 'VF_MAXCAP': maxcap}
+    minalloc = min(na, nb) + 1; maxalloc = maxcap; allocmask = None
+    if ce:
+        defs['VF_FORCE_CONSTANT_EVALUATED'] = 1; std = 'c++20' if std == 'c++17' else std; tag += '-ce'; minalloc = 0
+        esz = {'int': 4, 'unsigned char': 1}.get(elem, 16); maxalloc = max(maxcap, esz); allocmask = ((1 << (maxcap + 1)) - 1) | (1 << esz)
     if sizea is not None: defs['VF_SIZEA'] = sizea; tag += '-sa%d' % sizea
     if sizeb is not None: defs['VF_SIZEB'] = sizeb; tag += '-sb%d' % sizeb
     if extra_defs: defs.update(extra_defs)
     name = 'two-%s-%s-N%d.%d-c%d.%d-a%d-%s%s%s' % (op, elem, na, nb, capa, capb, afl, 'eq' if ideq else 'ne', '-f%d' % fmask if fmask else '', tag)
     if std != 'c++17': name += '-' + std.replace('+', 'p')
     w = ['normal return'] if witness is None else witness
-    return Job(name, 'two', defs, elems=[ELEM_IR[elem]], std=std, unwind=max(maxcap, 6) + 2, maxalloc=maxcap, minalloc=min(na, nb) + 1,
+    return Job(name, 'two', defs, elems=[ELEM_IR[elem]], std=std, unwind=max(maxcap, 6) + 2, maxalloc=maxalloc, minalloc=minalloc, allocmask=allocmask,
                expect_witness=w, extra_clang=list(extra_clang),
                desc='%s: small_vector<%s,%d> (cap %d) <- small_vector<%s,%d> (cap %d), allocator flags %d, ids %s%s' % (
                    op, elem, na, capa, elem, nb, capb, afl, 'equal' if ideq else 'unequal', ', faults kinds=%d' % fmask if fmask else ''))
